@@ -98,6 +98,15 @@ def PrevOk (s : State) : Prop :=
     (∃ b, s.lock (s.node n).fut = some b ∧ n ∈ (s.pc b).pend) ∨
     (∃ c, (s.box n).own = some c ∧ (s.pc c = .cResume n ∨ s.pc c = .cFree n))
 
+/-- `wake_all`, first phase: the nodes detached at lock time are exactly the taken, the skipped and the
+not yet scanned ones (ghost lists of the program counter) -/
+def ScanL0 (s : State) : Prop :=
+  ∀ a f hd tail cur took pend skip l0, s.pc a = .aScan f hd tail cur took pend skip l0 →
+    ∀ x, x ∈ l0 ↔ (x ∈ took ∨ x ∈ skip ∨ x ∈ pend)
+
+def UnlockL0 (s : State) : Prop :=
+  ∀ a f hd took skip l0, s.pc a = .aUnlock f hd took skip l0 → ∀ x, x ∈ l0 ↔ (x ∈ took ∨ x ∈ skip)
+
 structure Inv (s : State) : Prop where
   kindC : ∀ t, (s.pc (.cl t)).isWait = false
   kindF : ∀ h, s.pc (.fr h) = .idle ∨ (s.pc (.fr h)).isWait = true
@@ -132,9 +141,8 @@ structure Inv (s : State) : Prop where
   placed : ∀ n, (s.box n).alloc = true → (s.box n).pub = true → (s.box n).taken = false →
     n ∈ s.glist (s.node n).fut ∨ (∃ b, s.lock (s.node n).fut = some b ∧ n ∈ (s.pc b).pend)
   freshHolder : ∀ n, (s.box n).alloc = true → (s.box n).pub = false → ∃ h, (s.pc (.fr h)).fresh = some n
-  scanL0 : ∀ a f hd tail cur took pend skip l0, s.pc a = .aScan f hd tail cur took pend skip l0 →
-    ∀ x, x ∈ l0 ↔ (x ∈ took ∨ x ∈ skip ∨ x ∈ pend)
-  unlockL0 : ∀ a f hd took skip l0, s.pc a = .aUnlock f hd took skip l0 → ∀ x, x ∈ l0 ↔ (x ∈ took ∨ x ∈ skip)
+  scanL0 : ScanL0 s
+  unlockL0 : UnlockL0 s
   oScanOk : ∀ a f cur l0 seen, s.pc a = .oScan f cur l0 seen → s.hnext f = some cur ∧ l0 = seen ++ s.glist f
   oNoneOk : ∀ a f l0 seen, s.pc a = .oUnlock f none l0 seen → s.hnext f = none ∧ s.glist f = [] ∧ seen = l0
   aUnlockOk : ∀ a f hd took skip l0, s.pc a = .aUnlock f hd took skip l0 →
